@@ -36,10 +36,57 @@ pub(crate) fn decode(
     data: &[u8],
 ) -> Result<Vec<Vec<u8>>, Box<dyn std::error::Error + Send + Sync>> {
     // decode the RLE encoding first
-    let buf = bitfield_rle::decode(data)?;
+    let buf = rle_decode(data)?;
 
     // decode the delta-encoding
     delta_decode(reference, &buf)
+}
+
+/// The largest buffer a legitimate packet can decode to: every pending input (the sender gives up
+/// beyond 128 unacknowledged inputs) at its maximal length plus its length prefix.
+const MAX_DECODED_LEN: usize = 129 * (u16::MAX as usize + 2);
+
+/// Decodes the run-length layer written by `bitfield_rle::encode`. In contrast to
+/// `bitfield_rle::decode`, this never panics and never allocates more than `MAX_DECODED_LEN`
+/// bytes, whatever bytes it is given: the data comes straight from the network.
+fn rle_decode(data: &[u8]) -> Result<Vec<u8>, Box<dyn std::error::Error + Send + Sync>> {
+    let mut output = Vec::new();
+    let mut bytes = data.iter();
+
+    while let Some(&first) = bytes.next() {
+        // a varint: seven bits per byte, least significant group first, high bit = "more follows"
+        let mut value = u64::from(first & 127);
+        let mut shift = 7_u32;
+        let mut byte = first;
+        while byte & 128 != 0 {
+            byte = *bytes.next().ok_or("truncated run length")?;
+            if shift > 56 {
+                return Err("run length too large".into());
+            }
+            value |= u64::from(byte & 127) << shift;
+            shift += 7;
+        }
+
+        // bit 0 tells a run from literal bytes; for a run, bit 1 tells ones from zeros
+        let is_run = value & 1 != 0;
+        let len = if is_run { value >> 2 } else { value >> 1 };
+        let len = usize::try_from(len).map_err(|_| "run length too large")?;
+        if len > MAX_DECODED_LEN - output.len() {
+            return Err("decoded input data too large".into());
+        }
+
+        if is_run {
+            let fill = if value & 2 != 0 { 255 } else { 0 };
+            output.resize(output.len() + len, fill);
+        } else {
+            let rest = bytes.as_slice();
+            let literal = rest.get(..len).ok_or("truncated literal bytes")?;
+            output.extend_from_slice(literal);
+            bytes = rest.get(len..).unwrap_or_default().iter();
+        }
+    }
+
+    Ok(output)
 }
 
 fn delta_decode(
